@@ -114,7 +114,68 @@ func eqBits(a, b []uint64) bool {
 var ops = []string{"same-object-same-config", "same-object-other-config", "fresh-object-same-model",
 	"other:ClimateVariables", "other:FixedPartition", "other:DateGenerator", "other:USLEFineSedimentGeneration", "other:StorageRouting", "other:GR4J", "other:Storage"}
 
+// longCase: a two-letter periodic series of longLen steps against its own truncations (anything budgeted or averaged
+// over the whole series shows up as a dependence of early outputs on the series length)
+type longCase struct {
+	p    probe
+	a, b int
+}
+
+const longLen = 2000
+
+func longCases() []longCase {
+	var out []longCase
+	for _, p := range probes() {
+		if p.cfg != 0 {
+			continue
+		}
+		n := len(p.tbl.Letters)
+		if n > 5 {
+			n = 5
+		}
+		for a := 0; a < n; a++ {
+			for b := 0; b < n; b++ {
+				out = append(out, longCase{p, a, b})
+			}
+		}
+	}
+	return out
+}
+
+func runLong(lc longCase, r *vf.Rec) {
+	p := lc.p
+	long := make([]int, longLen)
+	for u := range long {
+		long[u] = lc.a
+		if u%2 == 1 {
+			long[u] = lc.b
+		}
+	}
+	run := func(n int) mrun.Result {
+		o := sim.Catalog[p.tbl.Model]()
+		mrun.Configure(o, mrun.Col(p.params()))
+		r.Count("causality_runs", 1)
+		return mrun.RunOn(o, inputsFor(p.tbl, long[:n]), n, nil)
+	}
+	full := run(longLen)
+	for _, n := range []int{5, 120} {
+		short := run(n)
+		for k := range short.Out {
+			for u := 0; u < n; u++ {
+				if math.Float64bits(short.Out[k][u]) != math.Float64bits(full.Out[k][u]) {
+					r.Failf(fmt.Sprintf("C14/%s/output-depends-on-series-length", p.tbl.Model), map[string]interface{}{"step": u, "truncated_after": n, "full_length": longLen, "truncated_run": short.Out[k][u], "full_run": full.Out[k][u], "letters": []int{lc.a, lc.b}},
+						"%s: output %d at step %d is %v in a %d-step run and %v in the %d-step run of the same series", p.tbl.Model, k, u, short.Out[k][u], n, full.Out[k][u], longLen)
+					return
+				}
+			}
+		}
+	}
+	r.Count("long_series_checked", 1)
+	r.MarkNontrivial()
+}
+
 type enum struct {
+	long     []longCase
 	probes   []probe
 	hist     [][]int // op index sequences (length 0..2)
 	baseline map[string][]uint64
@@ -123,7 +184,7 @@ type enum struct {
 func baselinePath() string { return filepath.Join(vf.Root, ".build", "c14-baseline.json") }
 
 func build(tier string) *enum {
-	e := &enum{probes: probes()}
+	e := &enum{probes: probes(), long: longCases()}
 	e.hist = append(e.hist, nil)
 	for a := range ops {
 		e.hist = append(e.hist, []int{a})
@@ -148,7 +209,7 @@ func build(tier string) *enum {
 	return e
 }
 
-func (e *enum) N() int64 { return int64(len(e.probes) * len(e.hist)) }
+func (e *enum) N() int64 { return int64(len(e.probes)*len(e.hist) + len(e.long)) }
 func (e *enum) decode(i int64) (probe, []int) {
 	return e.probes[int(i)/len(e.hist)], e.hist[int(i)%len(e.hist)]
 }
@@ -157,6 +218,10 @@ func zeroKey(p probe, k int) string {
 	return fmt.Sprintf("zeroed:%s/%d/%d", p.tbl.Model, p.cfg, k)
 }
 func (e *enum) Describe(i int64) interface{} {
+	if j := i - int64(len(e.probes)*len(e.hist)); j >= 0 {
+		lc := e.long[j]
+		return map[string]interface{}{"probe_model": lc.p.tbl.Model, "params": lc.p.params(), "periodic_series_letters": []int{lc.a, lc.b}, "length": longLen}
+	}
 	p, h := e.decode(i)
 	hs := []string{}
 	for _, o := range h {
@@ -165,11 +230,18 @@ func (e *enum) Describe(i int64) interface{} {
 	return map[string]interface{}{"probe_model": p.tbl.Model, "probe_config": p.cfg, "params": p.params(), "input_word": p.word(), "history_before_probe": hs}
 }
 func (e *enum) CrashSig(i int64, tail string) (string, string) {
+	if j := i - int64(len(e.probes)*len(e.hist)); j >= 0 {
+		return "C14/" + e.long[j].p.tbl.Model + "/crash/long-series", e.long[j].p.tbl.Model + ": a long periodic series crashed the process"
+	}
 	p, _ := e.decode(i)
 	return "C14/" + p.tbl.Model + "/crash", p.tbl.Model + ": a history of runs crashed the process"
 }
 
 func (e *enum) Run(i int64, r *vf.Rec) {
+	if j := i - int64(len(e.probes)*len(e.hist)); j >= 0 {
+		runLong(e.long[j], r)
+		return
+	}
 	p, h := e.decode(i)
 	base, ok := e.baseline[key(p)]
 	if !ok {
@@ -400,7 +472,7 @@ func Spec() *vf.Check {
 	return &vf.Check{
 		ID: "C14", Level: "model_checking", BlockSize: 64, Sub: sub, Pre: pre,
 		Rule: "explicit enumeration of run histories: for each of 82 probes (41 models x 2 configurations, T=5) every history of 0..3 earlier runs over a 10-operation alphabet {same object same config, same object other config (ApplyParameters again), fresh object of the same model, a model of each of the 7 packages} followed by the probe; oracle = the probe run first, in a fresh process, on a fresh object (each baseline computed in two separate processes). " +
-			"Causality for every probe: from the model-initialised and from a warmed-up state, for the probe word's prefixes and for every constant-letter prefix, every truncation point t in 1..4 and every replacement of the inputs after t by a constant tail of every letter. distinct_nontrivial = histories whose probe matched the baseline.",
+			"Causality for every probe: from the model-initialised and from a warmed-up state, for the probe word's prefixes and for every constant-letter prefix, every truncation point t in 1..4 and every replacement of the inputs after t by a constant tail of every letter; the same with each non-zero parameter in turn set to zero (variants that run at all in a fresh process); and, per model, every two-letter periodic series (first 5 letters) of 2000 steps against its truncations after 5 and 120 steps. distinct_nontrivial = histories whose probe matched the baseline.",
 		Assumptions: []string{"history depth 3 before the probe; one probe word per configuration", "package-level state that only a third kind of earlier run could set is not reached"},
 		Build:       func(tier string) vf.Enumeration { return build(tier) },
 		Finish: func(tier string, m *vf.Merged, cov map[string]interface{}) {
